@@ -6,6 +6,7 @@ import (
 	"path/filepath"
 	"sort"
 	"strings"
+	"sync"
 	"time"
 
 	"github.com/gopacket/gopacket"
@@ -22,7 +23,9 @@ import (
 
 type (
 	Builder struct {
-		snapshots        []*snapshot
+		snapshots []*snapshot
+		// knownPcaps and packetCount are updated by FromPcap while others read them
+		mutex            sync.RWMutex
 		knownPcaps       []*pcapmetadata.PcapInfo
 		packetCount      uint
 		indexDir         string
@@ -551,10 +554,13 @@ outer:
 		b.snapshotFilename = filepath.Base(newSnapshotFilename)
 	}
 
-	b.knownPcaps = append(b.knownPcaps, newPcapInfos...)
+	b.mutex.Lock()
+	// don't modify the backing array, KnownPcaps might have handed it out
+	b.knownPcaps = append(append([]*pcapmetadata.PcapInfo(nil), b.knownPcaps...), newPcapInfos...)
 	for _, pi := range newPcapInfos {
 		b.packetCount += pi.PacketCount
 	}
+	b.mutex.Unlock()
 	b.snapshots = newSnapshots
 
 	outputFiles := []string{}
@@ -566,9 +572,13 @@ outer:
 }
 
 func (b *Builder) PacketCount() uint {
+	b.mutex.RLock()
+	defer b.mutex.RUnlock()
 	return b.packetCount
 }
 
 func (b *Builder) KnownPcaps() []*pcapmetadata.PcapInfo {
+	b.mutex.RLock()
+	defer b.mutex.RUnlock()
 	return b.knownPcaps
 }
